@@ -26,11 +26,12 @@ THEOREMS = [
     "C19_total", "C19_deterministic", "C19_balanced",
     "C19_form_frac", "C19_form_sSup", "C19_form_sSub", "C19_form_sSubSup", "C19_form_rad",
     "C19_form_nary", "C19_form_delim", "C19_form_matrix", "C19_form_func", "C19_form_bar", "C19_form_acc",
-    "C19_own_operator",
+    "C19_own_operator", "C19_texts_in_order_partial",
 ]
 INST = ["C19_tables_wf", "C19_structural_not_skipped", "C19_nobrace_witnesses",
         "C19_orig_total_refuted", "C19_orig_balanced_refuted", "C19_orig_balanced_refuted_deg_order",
-        "C19_orig_own_operator_refuted", "C19_orig_none_rendered", "C19_known_witnesses_repaired"]
+        "C19_orig_own_operator_refuted", "C19_orig_none_rendered", "C19_known_witnesses_repaired",
+        "C19_tables_wf_txt", "C19_texts_ok_nonvacuous"]
 
 
 # ----------------------------------------------------------------------------- G: tables
@@ -208,6 +209,31 @@ def exhaustive(ctx):
                     cases.append((f"exh2:{kind}/{rname}", wrap([N("m:" + kind, *kids)])))
     for rname, rep in reps:
         cases.append((f"exh2:m/{rname}", wrap([N("m:m", N("m:mr", N("m:e", rep), N("m:e", mrun("v"))))])))
+    # same-kind nesting: every structural element inside each operand slot of an element of the same kind
+    def simple(kind, tag, inner=None):
+        """element of `kind` whose operands are distinct runs; `inner` (a node) replaces the run of slot `tag`"""
+        if kind == "m":
+            cells = [[mrun(tag + "p"), mrun(tag + "q")], [mrun(tag + "r"), mrun(tag + "s")]]
+            if inner is not None:
+                cells[0][0] = inner
+            return N("m:m", N("m:mPr"), *[N("m:mr", *[N("m:e", c) for c in row]) for row in cells])
+        pr, slots, chrs = KINDS[kind]
+        names = slots if kind != "d" else ["e", "e"]
+        kids = [N("m:" + pr, *[N("m:" + c, val=CHR_VALUES[kind][0]) for c in chrs])]
+        for i, nm in enumerate(names):
+            kids.append(N("m:" + nm, inner if (inner is not None and i == int(tag[-1])) else mrun(f"{tag}{nm}{i}")))
+        return N("m:" + kind, *kids)
+    for kind in list(KINDS) + ["m"]:
+        n_slots = 1 if kind == "m" else (2 if kind == "d" else len(KINDS[kind][1]))
+        for i in range(n_slots):
+            inner = simple(kind, f"i{i}")
+            cases.append((f"nest:{kind}", wrap([simple(kind, f"o{i}", inner)])))
+            inner2 = simple(kind, f"j{i}", simple(kind, f"k{i}"))
+            cases.append((f"nest:{kind}", wrap([simple(kind, f"o{i}", inner2), mrun("z")])))
+    # matrix below another element inside a matrix cell, and every kind inside a matrix cell of a nested matrix
+    for kind in KINDS:
+        inner = simple(kind, "i0", simple("m", "n0"))
+        cases.append((f"nest:m/{kind}", wrap([simple("m", "o0", inner)])))
     # top-level sequences (pending-radical interplay)
     pool = [mrun("("), mrun("a)"), mrun("b]"), mrun(")c)"), mrun("x"),
             N("m:rad", N("m:deg"), N("m:e", mrun("("))), N("m:rad", N("m:deg", mrun("3")), N("m:e", mrun("["))),
@@ -259,10 +285,10 @@ def random_tree(rng, tabs, malformed):
             return N("m:ctrlPr", N("w:rPr", N("w:rFonts")))
         return N(tagname(rng.choice(["sty", "limLoc", "subHide", "mcs", "unknown"])), val="1")
 
-    def content(depth):
+    def content(depth, parent=None):
         items = []
         for _ in range(rng.choice([0, 1, 1, 1, 2, 3])):
-            items.append(node(depth))
+            items.append(node(depth, parent))
         return items
 
     def chr_el(name, kind):
@@ -275,7 +301,7 @@ def random_tree(rng, tabs, malformed):
             e = (e[0], (("val", "plain"),) + e[1], e[2], e[3])
         return e
 
-    def node(depth):
+    def node(depth, parent=None):
         r = rng.random()
         if depth <= 0 or r < 0.3:
             t = N(tagname("t"), text=text())
@@ -283,10 +309,12 @@ def random_tree(rng, tabs, malformed):
                 return t
             return N(tagname("r"), *([noise()] if rng.random() < 0.3 else []), t)
         kind = rng.choice(list(KINDS) + ["m", "rad", "rad", "d", "nary"])
+        if parent is not None and rng.random() < 0.35:
+            kind = parent  # same-kind nesting (matrix in matrix cell, n-ary in n-ary operand, ...)
         if kind == "m":
             rows = []
             for _ in range(rng.randint(0 if malformed else 1, 3)):
-                rows.append(N(tagname("mr"), *[N(tagname("e"), *content(depth - 1)) for _ in range(rng.randint(0, 3))]))
+                rows.append(N(tagname("mr"), *[N(tagname("e"), *content(depth - 1, "m")) for _ in range(rng.randint(0, 3))]))
             return N(tagname("m"), *([N("m:mPr")] if rng.random() < 0.5 else []), *rows)
         pr, slots, chrs = KINDS[kind]
         kids = []
@@ -298,7 +326,7 @@ def random_tree(rng, tabs, malformed):
         names = list(slots) if kind != "d" else ["e"] * rng.randint(0, 3)
         for nm in names:
             if rng.random() < 0.85:
-                c = content(depth - 1)
+                c = content(depth - 1, kind)
                 if kind == "rad" and nm == "e" and rng.random() < 0.35:
                     c = [mrun(rng.choice(["(", "[", " (", "( ", "{" if malformed else "("]))]
                 kids.append(N(tagname(nm), *c))
@@ -440,6 +468,40 @@ def expected_operator(e, tabs):
     return tabs["accent_map"].get(val if own is not None else "^", "\\hat") + "{"
 
 
+def relabel(tree, lost):
+    """replace every run-text character that is neither whitespace nor a bracket by a unique private-use code point
+    (document order); whitespace and brackets stay, so the converter's control flow is unchanged"""
+    markers = []
+
+    def go(t):
+        tag, attrs, text, ch = t
+        if tag.split(":")[-1] == "t" and text:
+            new = []
+            for c in text:
+                if c.isspace() or c in lost:
+                    new.append(c)
+                else:
+                    m = chr(0xE000 + len(markers))
+                    markers.append(m)
+                    new.append(m)
+            text = "".join(new)
+        return (tag, attrs, text, tuple(go(c) for c in ch))
+    t2 = go(tree)
+    return t2, "".join(markers)
+
+
+def multiplicity_broken(mod, tabs, lost, tree):
+    """schema-shaped tree whose uniquely marked run-text characters do not come out exactly once, in source order"""
+    t2, markers = relabel(tree, lost)
+    if not markers or len(markers) > 6000:
+        return None
+    ev, ov, xv = impl(mod, to_xml(t2, root=True))
+    if ov is None or not schema_ok(ev, tabs, root=True):
+        return None
+    got = "".join(c for c in ov if 0xE000 <= ord(c) < 0xF900)
+    return None if got == markers else (to_xml(t2), ov, markers, got)
+
+
 def shrink(mod, tree, pred):
     """greedy structural minimisation of a harness tree keeping pred(tree) true"""
     def variants(t):
@@ -514,6 +576,10 @@ def check_tree(ctx, mod, tabs, tree, lost, kind):
                 return not is_subseq(want, erase(ov, tabs, lost))
             if p(tree):
                 report("text-lost-or-reordered", "run texts are not an ordered subsequence of the output", p)
+            if multiplicity_broken(mod, tabs, lost, tree):
+                report("text-multiplicity", "a run's text is not emitted exactly once in source order "
+                       "(text characters replaced by unique markers)",
+                       lambda v: multiplicity_broken(mod, tabs, lost, v) is not None)
         if len(e) and expected_operator(e[0], tabs) is not None:
             def p(v):
                 ev, ov, xv = impl(mod, to_xml(v, root=True))
@@ -567,8 +633,8 @@ def run(ctx):
         return
     lost = lost_chars(tabs)
 
-    ctx.prove("C19/Props.v", ["C19/Proofs.vo"], expected=THEOREMS)
-    ctx.prove("C19/Inst.v", ["Gen/C19Tables.vo", "C19/Corr.vo", "C19/Proofs.vo"], expected=INST)
+    ctx.prove("C19/Props.v", ["C19/Proofs.vo", "C19/Texts.vo"], expected=THEOREMS)
+    ctx.prove("C19/Inst.v", ["Gen/C19Tables.vo", "C19/Corr.vo", "C19/Proofs.vo", "C19/TextSpec.vo"], expected=INST)
 
     # ---- cases
     cases = exhaustive(ctx)
@@ -674,8 +740,10 @@ META = {
     "level_text": "Kernel-checked theorems for ALL trees (no size bound) over the model of the repaired converter: totality (no "
                   "exception), determinism, brace balance (proper nesting) for trees without literal braces, the documented LaTeX form "
                   "of every structural element with operands in place, operators taken from the element's own property "
-                  "child; refutation theorems for the unrepaired variant.  'Every run text once, in source order' is NOT a theorem yet: "
-                  "it is checked by the oracle on the implementation output (ordered-subsequence modulo whitespace/brackets) "
+                  "child; every run's mapped text exactly once in source order (C19_texts_in_order_partial) for schema-shaped trees "
+                  "whose run texts hold no whitespace/opening bracket and whose radicals have a radicand with text; refutation "
+                  "theorems for the unrepaired variant.  Outside that fragment 'once, in order' is tested by the marker oracle "
+                  "(run-text characters replaced by unique private-use code points must come out exactly once, in order) "
                   "for every schema-shaped generated tree.  The model is tied to the code by G-dumped tables "
                   "and by running model and implementation on ~7.6k (quick) / ~30k (thorough) parsed trees.",
     "level_note": "Trusted: Coq kernel+VM; the G-dump printer and the ast extraction of the local dict literals; the "
